@@ -520,7 +520,7 @@ def domain_guard(chk, prog, refs=None):
     return n
 
 
-ALL = {"STALE-DERIVED": lambda chk, prog, files: stale_derived(chk, prog, files), "CACHE-KEY": lambda chk, prog, files: cache_key(chk, prog, files), "NO-PARAM-WRITE": lambda chk, prog, files: no_param_write(chk, prog, files), "ZERO-AS-MISSING": lambda chk, prog, files: zero_as_missing(chk, prog, files), "POSE-DIV": lambda chk, prog, files: pose_div(chk, prog, files), "UNIT-GUARD": lambda chk, prog, files: unit_guard(chk, prog, files), "PARAM-DEAD": param_dead, "SWAPPED-ARGS": swapped_args, "METHOD-TRUTH": method_truth, "VIEW-SWAP": view_swap,
+ALL = {"SELF-PURE": lambda chk, prog, files: self_pure(chk, prog, files), "STALE-DERIVED": lambda chk, prog, files: stale_derived(chk, prog, files), "CACHE-KEY": lambda chk, prog, files: cache_key(chk, prog, files), "NO-PARAM-WRITE": lambda chk, prog, files: no_param_write(chk, prog, files), "ZERO-AS-MISSING": lambda chk, prog, files: zero_as_missing(chk, prog, files), "POSE-DIV": lambda chk, prog, files: pose_div(chk, prog, files), "UNIT-GUARD": lambda chk, prog, files: unit_guard(chk, prog, files), "PARAM-DEAD": param_dead, "SWAPPED-ARGS": swapped_args, "METHOD-TRUTH": method_truth, "VIEW-SWAP": view_swap,
        "MODULE-STATE": module_state, "SHADOW-REBIND": shadow_rebind, "CASE-MIXED": case_mixed, "INT-ALLOC": int_alloc}
 
 
@@ -589,7 +589,7 @@ def _lint_fixture_alloc(p):
 '''
 FIXTURE_HOST = "ahrs/common/frames.py"
 # rule -> properties that own it (None = every property, on its anchor files)
-OWNERS = {"STALE-DERIVED": None, "CACHE-KEY": None, "NO-PARAM-WRITE": {"C01", "C02", "C03", "C04", "C06", "C07", "C09", "C10", "C12", "C13", "C18", "C20"}, "ZERO-AS-MISSING": None, "POSE-DIV": {"C03", "C04", "C05", "C13", "C02", "C07"}, "UNIT-GUARD": None, "PARAM-DEAD": None, "SWAPPED-ARGS": None, "METHOD-TRUTH": None, "VIEW-SWAP": None, "INT-ALLOC": None, "CASE-MIXED": None,
+OWNERS = {"SELF-PURE": {"C01", "C02", "C07", "C09", "C10", "C11", "C12", "C18", "C20"}, "STALE-DERIVED": None, "CACHE-KEY": None, "NO-PARAM-WRITE": {"C01", "C02", "C03", "C04", "C06", "C07", "C09", "C10", "C12", "C13", "C18", "C20"}, "ZERO-AS-MISSING": None, "POSE-DIV": {"C03", "C04", "C05", "C13", "C02", "C07"}, "UNIT-GUARD": None, "PARAM-DEAD": None, "SWAPPED-ARGS": None, "METHOD-TRUTH": None, "VIEW-SWAP": None, "INT-ALLOC": None, "CASE-MIXED": None,
           "SHADOW-REBIND": None,
           # process-wide hidden state only contradicts properties that promise repeatability / isolation / history independence
           "MODULE-STATE": {"C06", "C15", "C19"}}
@@ -636,6 +636,20 @@ def self_test(chk, prog):
         pose_div(sink, p3, ["ahrs/filters/tilt.py"])
     except Exception as e:
         chk.error("lint POSE-DIV crashed on its positive example: %s: %s" % (type(e).__name__, e))
+    # SELF-PURE is table-driven too: an accessor of a value class that scales its own storage
+    def tr3(tree):
+        for c in ast.walk(tree):
+            if isinstance(c, ast.ClassDef) and c.name == "Quaternion":
+                for g in c.body:
+                    if isinstance(g, ast.FunctionDef) and g.name == "to_array":
+                        g.body.insert(1, ast.parse("self.A *= 1.0").body[0])
+                        return True
+        return False
+    try:
+        p4 = prog.mutated("ahrs/common/quaternion.py", tr3)
+        self_pure(sink, p4, ["ahrs/common/quaternion.py"])
+    except Exception as e:
+        chk.error("lint SELF-PURE crashed on its positive example: %s: %s" % (type(e).__name__, e))
     for name in ALL:
         fired = name in sink.rules
         chk.canary("lint %s fires on its embedded positive example" % name, fired, "" if fired else "no finding on the fixture")
@@ -1103,4 +1117,35 @@ def stale_derived(chk, prog, files):
                                     "`self.%s` is computed from `self.%s` and `self.%s` is then given a different value in the same method without re-deriving `self.%s`: "
                                     "on return the two attributes describe different states" % (a, b, b, a), line=line)
     chk.counts["STALE-DERIVED.methods"] = chk.counts.get("STALE-DERIVED.methods", 0) + n
+    return n
+
+
+# ------------------------------------------------------------------------------------------------------------- SELF-PURE
+def self_pure(chk, prog, files):
+    """value classes (Quaternion, QuaternionArray, DCM): a method outside the documented in-place API never writes the object's own storage
+    (ownership analysis of C19, restricted to the given files): an accessor that mutates its object changes what every later call sees"""
+    from .flow import Alias
+    from props.c19 import VALUE_CLASSES, INPLACE_API
+    alias = Alias(prog)
+    n = 0
+    for rel in sorted(files):
+        m = prog.modules.get(rel)
+        if m is None:
+            continue
+        for c in m.classes.values():
+            if c.name not in VALUE_CLASSES:
+                continue
+            for f in c.methods.values():
+                if f.qname in INPLACE_API:
+                    continue
+                n += 1
+                s = alias.summary(f)
+                for ph, recs in s.mut.items():
+                    if ph[0] == "cell" and ph[1] in VALUE_CLASSES[c.name]:
+                        for r in recs:
+                            inner = r["path"][-1] if r["path"] else r
+                            chk.finding("SELF-PURE", m.rel, f.qname, "self.%s: %s" % (ph[1], inner["stmt"]),
+                                        "%s is not part of the in-place API but writes the object's own storage self.%s: a second call sees different data" % (f.qname, ph[1]),
+                                        line=inner.get("line"))
+    chk.counts["SELF-PURE.methods"] = chk.counts.get("SELF-PURE.methods", 0) + n
     return n
